@@ -129,4 +129,32 @@ def orderOK (g : TGraph) (flat : Bool) : Bool :=
 def nestAllOK (g : TGraph) (flat : Bool) : Bool :=
   (roots g flat).all fun i => nestOK g flat (g.elems.length + 1) i
 
+/-! ## sessions: a call's result depends on its argument only
+
+The model has no state: every export / parse is a function of its argument.  A *session* is a list
+of calls made one after the other; its results are the results of the calls taken alone.  (The
+implementation is tied to this by the session search of harness/p_c14.py: any dependence of a result
+on earlier calls, or any change of an earlier result, is reported as a failing session.) -/
+
+inductive Call
+  | exportBin (c : Cfg) (g : Graph)
+  | parseBin (c : Cfg) (bs : Bytes)
+  | exportKv2 (flat cull : Bool) (g : TGraph)
+  | parseKv2 (text : Str)
+
+inductive CallResult
+  | bytes (b : Bytes)
+  | graph (r : Except Err Graph)
+  | text (s : Str)
+  | nodes (r : Except String (List FNode))
+
+def runCall (E : Tok.Tables) (T : Tables) (cfold : Char → List Char) : Call → CallResult
+  | .exportBin c g => .bytes (encodeBin T c g)
+  | .parseBin c bs => .graph (decodeBin T c bs)
+  | .exportKv2 flat cull g => .text (emit E T flat cull g)
+  | .parseKv2 text => .nodes (parse E T cfold text)
+
+def runSession (E : Tok.Tables) (T : Tables) (cfold : Char → List Char) (calls : List Call) : List CallResult :=
+  calls.map (runCall E T cfold)
+
 end C14.Kv2
